@@ -20,7 +20,8 @@ Record call := {
   o_core_eq : bool;       (* the same digest ignoring the unibi balances of caller and precompile account *)
   o_oog_panic : bool;     (* the recovered Go panic value was sdk.ErrorOutOfGas *)
   o_cost : option Z;      (* gas the same call consumes when given ample gas (forwarded - handed back), if it succeeds then *)
-  o_mint_panic : bool     (* the recovered Go panic was sdkmath's "integer overflow" under bank.MintCoins *)
+  o_mint_panic : bool;    (* the recovered Go panic was sdkmath's "integer overflow" under bank.MintCoins *)
+  o_revert_panic : bool   (* the recovered Go panic was a slice-bounds runtime error while the FunToken's ERC20 was set to revert *)
 }.
 
 (** an earlier step of the same transaction (same StateDB): a journaled EVM state change (value transfer
@@ -42,7 +43,8 @@ Definition obs_body (c : call) : mid -> list arg -> Z * Z -> Z -> bres (Z * Z) :
     | Ok => BOk st' (lim - o_left c)
     | Err => BErr st' 0
     | OutOfGas => BOog st'
-    | Panic => if o_oog_panic c then BOog st' else if o_mint_panic c then BMint st' two256 0 else BErr st' 0
+    | Panic => if o_oog_panic c then BOog st' else if o_mint_panic c then BMint st' two256 0
+               else if o_revert_panic c then BNested st' 0 NRevert panic_selector 4 else BErr st' 0
     end.
 
 Definition obs_after : mid -> list arg -> Z * Z -> Z -> bres (Z * Z) := fun _ _ st _ => BErr st 0.
